@@ -93,6 +93,8 @@ class HashTable:
             offset = np.flatnonzero(possible_keys == keys)
             return h, offset
         keys = np.asanyarray(keys)
+        if keys.size == 0:
+            keys = keys.astype(self._key_dtype)  # an empty list arrives as float64
         hashes = self._get_hash(keys)
         possible_keys = self._keys[hashes]
         rows, offsets = (possible_keys == keys[:, None]).nonzero()
